@@ -12,6 +12,10 @@ order with cancelled entries left in place; worker iterations as `poll`/`wake`).
 * every operation list (`Reachable`): any history of schedule / get_expired / remove / cancel / destroy / worker
   iterations of any number of workers, with arbitrary (equal, past) time points and identifiers.  Every public method is
   one lock region, so an interleaving of threads is an operation list.
+
+Two client programs are modelled below that level: `interval()`'s stop callback as a lock program (`runProg`) and the stop
+handshake between `~scheduler()` and the worker as a micro-step model (`Stop.*`, every interleaving).  Four defects of the
+pinned code are kept as `decide`d witnesses on as-is variants (`c12_asis_*`).
 -/
 namespace Cocls.Sched
 
